@@ -15,7 +15,7 @@ import (
 )
 
 // Encodings of one logical request (C18).
-var Encodings = []string{"query", "form", "json", "envelope", "yaml", "batch", "direct"}
+var Encodings = []string{"query", "form", "json", "envelope", "yaml", "batch", "direct", "yamlbody", "batch2"}
 
 // URI prefixes the service treats alike.
 var prefixes = []string{"/api", "", "/v1.2/api", "/v2"}
@@ -146,8 +146,20 @@ func (w *World) send(r httpReq, encoding string, prefix string) (int, string, er
 			return 0, "", err
 		}
 		req = httptest.NewRequest("POST", "/api/yaml", bytes.NewReader(bs))
+	case "yamlbody":
+		// a YAML document as the body of a request to the operation's own URI
+		bs, err := yaml.Marshal(r.bodyMap(""))
+		if err != nil {
+			return 0, "", err
+		}
+		req = httptest.NewRequest("POST", uri, bytes.NewReader(bs))
 	case "batch":
 		body := map[string]interface{}{"requests": []interface{}{r.bodyMap(uri)}}
+		req = httptest.NewRequest("POST", "/api/sys/util/batch", strings.NewReader(mustJSON(body)))
+	case "batch2":
+		// the request after one that fails: every request of a batch is executed and answered
+		failing := map[string]interface{}{"uri": "/api/loc/facts/get", "location": r.params["location"], "id": "no such id, surely"}
+		body := map[string]interface{}{"requests": []interface{}{failing, r.bodyMap(uri)}}
 		req = httptest.NewRequest("POST", "/api/sys/util/batch", strings.NewReader(mustJSON(body)))
 	case "direct":
 		// Service.ProcessRequest without HTTP
@@ -205,15 +217,25 @@ func (w *World) doHTTP(op Op, res *Res, encoding, prefix string) {
 	}
 	res.Enc = encoding + " " + prefix + r.uri
 	var parsed interface{}
-	if encoding == "batch" {
+	if encoding == "batch" || encoding == "batch2" {
 		// [ {...} ] or [ {"error":"..."} ]
+		want := 1
+		if encoding == "batch2" {
+			want = 2
+		}
 		var arr []interface{}
-		if e := json.Unmarshal([]byte(body), &arr); e != nil || len(arr) != 1 {
-			res.C, res.Msg = "error", fmt.Sprintf("batch response is not a one-element JSON array (status %d): %.300s", code, body)
+		if e := json.Unmarshal([]byte(body), &arr); e != nil || len(arr) != want {
+			res.C, res.Msg = "error", fmt.Sprintf("batch response is not a JSON array of %d answers (status %d): %.300s", want, code, body)
 			res.Bad = true
 			return
 		}
-		parsed = arr[0]
+		if want == 2 {
+			first, _ := arr[0].(map[string]interface{})
+			if _, isErr := first["error"]; !isErr && r.params["location"] != nil {
+				// fine either way for the first request; only its presence matters
+			}
+		}
+		parsed = arr[want-1]
 		if m, ok := parsed.(map[string]interface{}); ok {
 			if e, isErr := m["error"]; isErr && len(m) == 1 {
 				res.Msg, _ = e.(string)
@@ -327,10 +349,10 @@ func (w *World) badRequest(op Op, res *Res, encoding, prefix string) {
 	res.Enc = encoding + " " + op.Id
 	res.Msg = fmt.Sprintf("%d %.200s", code, body)
 	isErr := code == 400
-	if encoding == "batch" {
+	if encoding == "batch" || encoding == "batch2" {
 		var arr []interface{}
-		if e := json.Unmarshal([]byte(body), &arr); e == nil && len(arr) == 1 {
-			if m, ok := arr[0].(map[string]interface{}); ok {
+		if e := json.Unmarshal([]byte(body), &arr); e == nil && len(arr) >= 1 {
+			if m, ok := arr[len(arr)-1].(map[string]interface{}); ok {
 				_, isErr = m["error"]
 			}
 		} else {
